@@ -399,4 +399,184 @@ theorem numSp_chars {r n : Nat} {s : Str} (hr : 2 ≤ r) (h : NumSp r n s) :
     repeat' split
     all_goals (first | (intro _; subst_vars; exact Or.inr (Or.inr (by decide))) | (intro h; exact Or.inr (Or.inl h)))
 
+theorem parseUInt_chars {r bits n : Nat} {s : Str} (hr : r = 10 ∨ r = 16) (h : parseUInt r bits s = some n) :
+    ∀ c ∈ s, c = '+' ∨ c ∈ lowerDigits ∨ c ∈ upperDigits :=
+  numSp_chars (by rcases hr with rfl | rfl <;> omega) (parseUInt_spelling hr h).1
+
+theorem parseUInt_none_of_mem {r bits : Nat} {s : Str} (hr : r = 10 ∨ r = 16) (c : Char) (hc : c ∈ s)
+    (h1 : c ≠ '+') (h2 : c ∉ lowerDigits) (h3 : c ∉ upperDigits) : parseUInt r bits s = none := by
+  cases h : parseUInt r bits s with
+  | none => rfl
+  | some n =>
+    rcases parseUInt_chars hr h c hc with h | h | h
+    · exact absurd h h1
+    · exact absurd h h2
+    · exact absurd h h3
+
+/-- zero-padded canonical digits parse to the number -/
+theorem parseUInt_zeros_showNat {r bits n : Nat} (hr : r = 10 ∨ r = 16) (hn : n < 2 ^ bits) (k : Nat) :
+    parseUInt r bits (List.replicate k '0' ++ showNat r n) = some n := by
+  have h2 : 2 ≤ r := by rcases hr with rfl | rfl <;> omega
+  unfold parseUInt
+  have hch : ∀ c ∈ List.replicate k '0' ++ showNat r n, c ∈ lowerDigits := by
+    intro c hc
+    rcases List.mem_append.mp hc with hc | hc
+    · rw [List.mem_replicate] at hc; rcases hc with ⟨_, rfl⟩; decide
+    · exact showNat_chars h2 n c hc
+  rw [stripPlus_of_digit hch]
+  cases hs : List.replicate k '0' ++ showNat r n with
+  | nil => simp at hs; exact absurd hs.2 (showNat_ne_nil h2 n)
+  | cons d ds =>
+    simp only []
+    rw [← hs, parseDigits_zeros hr, parseDigits_showNat hr n]
+    simp [hn]
+
+/-! ## `str` primitives -/
+
+theorem splitOnce_some {sep : Char} : ∀ {s a b : Str}, splitOnce sep s = some (a, b) → s = a ++ sep :: b ∧ sep ∉ a
+  | [], a, b, h => by simp [splitOnce] at h
+  | c :: cs, a, b, h => by
+    unfold splitOnce at h
+    split at h
+    · next hc => cases h; subst hc; simp
+    · next hc =>
+      split at h
+      · next a' b' hr =>
+        cases h
+        obtain ⟨h1, h2⟩ := splitOnce_some hr
+        refine ⟨by rw [h1]; rfl, ?_⟩
+        intro hm
+        rcases List.mem_cons.mp hm with h | h
+        · exact hc h.symm
+        · exact h2 h
+      · cases h
+
+theorem splitOnce_none {sep : Char} : ∀ {s : Str}, splitOnce sep s = none → sep ∉ s
+  | [], _ => by simp
+  | c :: cs, h => by
+    unfold splitOnce at h
+    split at h
+    · cases h
+    · next hc =>
+      split at h
+      · cases h
+      · next hr =>
+        intro hm
+        rcases List.mem_cons.mp hm with h | h
+        · exact hc h.symm
+        · exact splitOnce_none hr h
+
+theorem splitOnce_append {sep : Char} : ∀ {a b : Str}, sep ∉ a → splitOnce sep (a ++ sep :: b) = some (a, b)
+  | [], b, _ => by simp [splitOnce]
+  | c :: cs, b, h => by
+    have hc : c ≠ sep := by intro hc; subst hc; exact h (by simp)
+    have ht : sep ∉ cs := by intro hm; exact h (by simp [hm])
+    simp [splitOnce, hc, splitOnce_append ht]
+
+theorem splitOnce_of_not_mem {sep : Char} {s : Str} (h : sep ∉ s) : splitOnce sep s = none := by
+  cases hs : splitOnce sep s with
+  | none => rfl
+  | some p =>
+    obtain ⟨a, b⟩ := p
+    have := (splitOnce_some hs).1
+    exact absurd (by rw [this]; simp) h
+
+theorem rsplitOnce_some {sep : Char} {s a b : Str} (h : rsplitOnce sep s = some (a, b)) :
+    s = a ++ sep :: b ∧ sep ∉ b := by
+  unfold rsplitOnce at h
+  split at h
+  · next x y hs =>
+    cases h
+    obtain ⟨h1, h2⟩ := splitOnce_some hs
+    have : s = (x ++ sep :: y).reverse := by rw [← h1, List.reverse_reverse]
+    refine ⟨by rw [this]; simp, by simpa using h2⟩
+  · cases h
+
+theorem rsplitOnce_append {sep : Char} {a b : Str} (h : sep ∉ b) : rsplitOnce sep (a ++ sep :: b) = some (a, b) := by
+  unfold rsplitOnce
+  have : (a ++ sep :: b).reverse = b.reverse ++ sep :: a.reverse := by simp
+  rw [this, splitOnce_append (by simpa using h)]
+  simp
+
+theorem stripPrefix_some : ∀ {p s r : Str}, stripPrefix p s = some r ↔ s = p ++ r
+  | [], s, r => by simp [stripPrefix]
+  | _ :: _, [], r => by simp [stripPrefix]
+  | p :: ps, c :: cs, r => by
+    unfold stripPrefix
+    split
+    · next h => subst h; simp [stripPrefix_some (p := ps) (s := cs) (r := r)]
+    · next h => simp; intro h'; exact absurd h'.symm h
+
+theorem stripSuffix_some {p s r : Str} : stripSuffix p s = some r ↔ s = r ++ p := by
+  unfold stripSuffix
+  split
+  · next x hx =>
+    rw [stripPrefix_some] at hx
+    have : s = x.reverse ++ p := by
+      have := congrArg List.reverse hx; simpa using this
+    constructor
+    · intro h; cases h; exact this
+    · intro h; rw [this] at h; have := List.append_cancel_right h; rw [this]
+  · next hx =>
+    constructor
+    · intro h; cases h
+    · intro h
+      exfalso
+      have : stripPrefix p.reverse s.reverse = some r.reverse := by
+        rw [stripPrefix_some, h]; simp
+      rw [this] at hx; cases hx
+
+theorem splitN_two {sep : Char} {s : Str} :
+    splitN 2 sep s = match splitOnce sep s with | some (a, b) => [a, b] | none => [s] := by
+  unfold splitN
+  split <;> simp_all [splitN]
+
+theorem splitN_three {sep : Char} {s : Str} :
+    splitN 3 sep s = match splitOnce sep s with
+      | some (a, b) => (match splitOnce sep b with | some (c, d) => [a, c, d] | none => [a, b])
+      | none => [s] := by
+  unfold splitN
+  split
+  · next a b h => simp [h, splitN_two]; split <;> simp_all
+  · next h => simp [h]
+
+theorem filter_sep_of_not_mem {sep : Char} {s : Str} (h : sep ∉ s) : s.filter (· == sep) = [] := by
+  rw [List.filter_eq_nil_iff]
+  intro c hc hcs
+  have : c = sep := by simpa using hcs
+  subst this; exact h hc
+
+/-! ## AS numbers -/
+
+theorem showAsn_hex (v : Nat) :
+    showAsnParts v ASN_NUMBER_PARTS =
+      showNat 16 (v / 2 ^ 32 % 2 ^ 16) ++ ASN_SEP :: (showNat 16 (v / 2 ^ 16 % 2 ^ 16) ++ ASN_SEP :: showNat 16 (v % 2 ^ 16)) := by
+  simp [ASN_NUMBER_PARTS, showAsnParts, ASN_BITS_PER_PART]
+
+theorem sep_not_digit : ASN_SEP ≠ '+' ∧ ASN_SEP ∉ lowerDigits ∧ ASN_SEP ∉ upperDigits := by decide
+
+theorem foldAsnParts_three {p1 p2 p3 : Str} {val n : Nat} (h : foldAsnParts [p1, p2, p3] (0, 0) = some (val, n)) :
+    ∃ a b c, parseUInt 16 16 p1 = some a ∧ parseUInt 16 16 p2 = some b ∧ parseUInt 16 16 p3 = some c ∧
+      val = (a * 2 ^ 16 + b) * 2 ^ 16 + c ∧ n = 3 := by
+  simp only [foldAsnParts, ASN_PART_RADIX, ASN_PART_PARSE_BITS, ASN_BITS_PER_PART] at h
+  cases ha : parseUInt 16 16 p1 with
+  | none => simp [ha] at h
+  | some a =>
+    cases hb : parseUInt 16 16 p2 with
+    | none => simp [ha, hb] at h
+    | some b =>
+      cases hc : parseUInt 16 16 p3 with
+      | none => simp [ha, hb, hc] at h
+      | some c =>
+        simp [ha, hb, hc] at h
+        exact ⟨a, b, c, rfl, rfl, rfl, by omega, by omega⟩
+
+theorem foldAsnParts_count : ∀ (l : List Str) (v0 n0 val n : Nat), foldAsnParts l (v0, n0) = some (val, n) → n = n0 + l.length
+  | [], v0, n0, val, n, h => by simp [foldAsnParts] at h; simp; omega
+  | p :: ps, v0, n0, val, n, h => by
+    simp only [foldAsnParts] at h
+    split at h
+    · have := foldAsnParts_count ps _ _ _ _ h; simp; omega
+    · cases h
+
 end ScionVerif.AddrText
